@@ -245,7 +245,7 @@ def scen_classic(odir, resume, n_samples, mirror_nl, seed, const):
     return out
 
 
-def _jax_run(seed, sample_mode, n_samples, residual_map="lmap", kl_map="vmap", jit=True):
+def _jax_run(seed, sample_mode, n_samples, residual_map="lmap", kl_map="vmap", jit=True, static=False):
     import jax
     jax.config.update("jax_enable_x64", True)
     import jax.numpy as jnp
@@ -262,11 +262,16 @@ def _jax_run(seed, sample_mode, n_samples, residual_map="lmap", kl_map="vmap", j
     pos0 = jft.Vector({"a": jnp.array([0.1, -0.2, 0.3]), "b": jnp.array([0.0, 0.1, -0.1])})
     kmap = {"vmap": jax.vmap, "lmap": jft.lmap if hasattr(jft, "lmap") else "lmap",
             "smap": jft.smap if hasattr(jft, "smap") else "smap"}[kl_map]
+    dl = dict(cg_name=None, cg_kwargs=dict(absdelta=1e-12, maxiter=40))
+    nu = dict(minimize_kwargs=dict(name=None, xtol=1e-8, maxiter=4, cg_kwargs=dict(name=None)))
+    if static:
+        # vmap / smap trace the sampling functions: they need the JIT-compatible minimisers (documented)
+        dl["cg"] = jft.conjugate_gradient.static_cg
+        nu["minimize"] = jft.optimize._static_newton_cg   # (the docstring names static_newton_cg, which returns only .x)
     samples, st_ = jft.optimize_kl(
         lh, pos0, key=random.PRNGKey(seed), n_total_iterations=2, n_samples=n_samples,
-        draw_linear_kwargs=dict(cg_name=None, cg_kwargs=dict(absdelta=1e-12, maxiter=40)),
-        nonlinearly_update_kwargs=dict(minimize_kwargs=dict(name=None, xtol=1e-8, maxiter=4,
-                                                            cg_kwargs=dict(name=None))),
+        draw_linear_kwargs=dl,
+        nonlinearly_update_kwargs=nu,
         kl_kwargs=dict(minimize_kwargs=dict(name=None, xtol=1e-8, maxiter=4, cg_kwargs=dict(name=None))),
         sample_mode=sample_mode, odir=None, residual_map=residual_map, kl_map=kmap, jit=jit)
     leaves, _ = jax.tree_util.tree_flatten((samples.pos, samples._samples))
@@ -302,7 +307,7 @@ def check_fresh(rec):
 
 def fresh_cases(tier, seed):
     out = []
-    n_cl, n_jx = (6, 2) if tier == "quick" else (40, 12)
+    n_cl, n_jx = (4, 2) if tier == "quick" else (40, 12)
     rng = np.random.default_rng(seed)      # case list is a pure function of the seed
     for i in range(n_cl):
         out.append({"api": "cl", "cfg": dict(n_samples=int(rng.integers(0, 3)), mirror_nl=bool(rng.integers(0, 2)),
@@ -315,9 +320,9 @@ def fresh_cases(tier, seed):
 
 
 def check_strategies(rec):
-    ref_l, ref_k = _jax_run(rec["seed"], rec["sample_mode"], rec["n_samples"], "lmap", "vmap", True)
+    ref_l, ref_k = _jax_run(rec["seed"], rec["sample_mode"], rec["n_samples"], "lmap", "vmap", True, static=True)
     for rmap, kmap, jit in rec["variants"]:
-        l, k = _jax_run(rec["seed"], rec["sample_mode"], rec["n_samples"], rmap, kmap, jit)
+        l, k = _jax_run(rec["seed"], rec["sample_mode"], rec["n_samples"], rmap, kmap, jit, static=True)
         require(np.array_equal(k, ref_k), "sample_keys_depend_on_strategy", f"{rmap},{kmap},jit={jit}")
         require(len(l) == len(ref_l), "tree_structure", "")
         for a, b in zip(l, ref_l):
